@@ -330,6 +330,11 @@ static Plan gen_C07(uint64_t seed, Rng &r) {
             left -= chunk;
             if (r.chance(0.3)) p.ops.push_back(mk(OP_FLOOD, 1, {r.range(1, 5), base - 1, 0, (base - 1) & 1 ? wire::W_PROBE : wire::W_TRAIN, 1})); // byte-identical duplicates
             if (r.chance(0.3)) p.ops.push_back(mk(OP_PROBE, 1, {r.range(1500, 1600), r.range(1500, 1600), wire::W_PROBE, r.range(2000, 2010), r.range(2000, 2010), 0, 0, 0})); // for another station
+            if (r.chance(0.3) && k + 4 <= 300) { // distinct observations that share the Ethernet source (or the real source) with an earlier one
+                int64_t shared = 1700 + r.range(0, 5);
+                int extra = (int)r.range(2, 3);
+                for (int q = 0; q < extra; q++) p.ops.push_back(mk(OP_PROBE, 1, {r.chance(0.5) ? shared : 1800 + base % 97 + q, r.chance(0.5) ? 1900 + base % 89 + q : shared, wire::W_PROBE, 100, 100, 0, 0, 0}));
+            }
             if (r.chance(0.2)) p.ops.push_back(op_discover(r, mapper, 0));
             if (r.chance(0.15)) { Op e = mk(OP_EMIT, 5, {mapper, br, 0, rnd_seq(r), -1, 0}); e.blob = rnd_descs(r, 1); p.ops.push_back(e); }
             if (r.chance(0.15)) p.ops.push_back(mk(OP_QLT, 5, {mapper, br, 0, rnd_seq(r), 0x11, 0, 0}));
@@ -413,7 +418,12 @@ static Plan gen_C10(uint64_t seed, Rng &r) {
         int A = (int)r.below(2), B = 1 - A;
         size_t cnt = (size_t)r.range(1, 6);
         Op e = mk(OP_EMIT, (uint32_t)r.range(20, 200), {mapper, -1, A, rnd_seq(r), -1, 0});
-        e.blob = rnd_descs(r, cnt, &nm[A], &nm[B]);
+        // descriptor source: A itself, or an address the mapper makes A spoof - possibly one that unrelated stations also use
+        int pool = (int)r.below(3);
+        Mac spoof = pool == 0 ? nm[A] : World(p).station_mac(4 + (int)r.below(2));
+        e.blob = rnd_descs(r, cnt, &spoof, &nm[B]);
+        if (pool != 0 && r.chance(0.7)) // unrelated traffic from the station that really owns that address, seen by B just before
+            p.ops.push_back(mk(OP_PROBE, (uint32_t)r.range(1, 30), {spoof.a[5], spoof.a[5], r.chance(0.5) ? wire::W_PROBE : wire::W_TRAIN, 100 + B, 100 + B, 0, 0, 0}));
         p.ops.push_back(e);
         int un = (int)r.below(4);
         for (int i = 0; i < un; i++) p.ops.push_back(rnd_lan_op(r, p, m, 3, mapper));
@@ -437,7 +447,7 @@ static Plan gen_C11(uint64_t seed, Rng &r) {
     for (int i = 0; i < nops; i++) {
         int x = (int)r.below(12);
         if (x < 7) {
-            if (r.chance(0.3)) xid = rnd_seq(r);
+            if (r.chance(0.3)) xid = r.chance(0.15) ? 0 : (int64_t)rnd_seq(r);
             if (r.chance(0.15)) gen = rnd_gen(r);
             if (r.chance(0.1)) mapper = (int)r.below(3);
             Op o = mk(OP_DISCOVER, rnd_dt(r), {mapper, rnd_bridge(r, mapper), r.chance(0.8) ? 0 : 1, gen, xid, 1, 0, 0});
@@ -540,6 +550,17 @@ static Plan gen_C13(uint64_t seed, Rng &r) {
             p.ops.push_back(mk(OP_A_SETR, 0, {r2}));
             p.ops.push_back(mk(OP_A_BLOCKEND, 0, {}));
             if (r.chance(0.3)) { p.ops.push_back(mk(OP_A_HEARD, 0, {r.range(1, 400)})); p.ops.push_back(mk(OP_A_ADV, 0, {r.range(300, 700)})); p.ops.push_back(mk(OP_A_TICK, 0, {})); }
+            if (r.chance(0.4)) { // Hellos counted one by one across consecutive blocks, the first of them before enumeration has begun
+                p.ops.push_back(mk(OP_A_BANDSET, 0, {r.range(45, 10000), 0}));
+                p.ops.push_back(mk(OP_A_SETR, 0, {0}));
+                p.ops.push_back(mk(OP_A_HEARD, 0, {r.range(0, 9)}));
+                p.ops.push_back(mk(OP_A_BLOCKEND, 0, {}));
+                if (r.chance(0.7)) p.ops.push_back(mk(OP_A_DISCBOOK, 0, {}));
+                p.ops.push_back(mk(OP_A_HEARD, 0, {r.chance(0.5) ? r.range(0, 9) : r.range(10, 40)}));
+                p.ops.push_back(mk(OP_A_BLOCKEND, 0, {}));
+                p.ops.push_back(mk(OP_A_HEARD, 0, {r.range(0, 20)}));
+                p.ops.push_back(mk(OP_A_BLOCKEND, 0, {}));
+            }
         }
     } else { // frame level: real Hello storms against the Darwin flow, blocks ended by the real tick
         NodeCfg n = rnd_node(r, {GLUE_DARWIN});
